@@ -271,6 +271,16 @@ def run_op(d, op, by, n, groups, cells, rec):
             if ms[i] != len(g[1]) or dgs[i] != digest_of(g[1]) or rs[i] != i - min(g[1]):
                 return f"row {i} (group {g[0]} rows {g[1]}): m={ms[i]} dg={dgs[i]} r={rs[i]}, expected {len(g[1])}, {digest_of(g[1])}, {i - min(g[1])}"
         rec.outcome(("modify", tuple(ms)))
+        if n >= 1:
+            # a group-wise result that does not fit its group (here: one element too many) must be rejected, not stored
+            try:
+                bad = d.group_by(*by).modify(z=lambda x: list(range(x.nrow + 1)))
+            except Exception:
+                pass
+            else:
+                return f"grouped modify stored a result of the wrong length: columns {[(k, len(v)) for k, v in bad.items()]}"
+            finally:
+                d._group_colnames = ()
         return None
     if op.startswith("helper:"):
         j = int(op.split(":")[1])
